@@ -109,10 +109,146 @@ fn recovery() -> Vec<HOp> {
 }
 
 fn units(_tier: &str) -> usize {
-    grid().len()
+    grid().len() + dup_cases().len()
+}
+
+// ---------------------------------------------------------------- failing duplicate stream
+
+/// File logging with duplication to stderr / stdout while that stream is a full device for part
+/// of the history (every write to it really fails with ENOSPC).
+fn dup_cases() -> Vec<(i32, ModeK, Option<NamingK>)> {
+    let mut v = Vec::new();
+    for fd in [2, 1] {
+        for mode in [ModeK::Direct, ModeK::BufDont(16)] {
+            for rot in [None, Some(NamingK::Numbers)] {
+                v.push((fd, mode, rot));
+            }
+        }
+    }
+    v
+}
+
+fn run_dup(fd: i32, mode: ModeK, rot: Option<NamingK>) -> Result<usize, Fail> {
+    use crate::capture::FdCapture;
+    let env = Env::new("c19d");
+    env.enter();
+    let mut cfg = match rot {
+        Some(n) => Cfg::rot(CritK::Size(LIMIT), n, CleanK::Never),
+        None => Cfg::norot(),
+    };
+    cfg.mode = mode;
+    let lb = cfg.logger(&env.dir, &env.err);
+    let lb = if fd == 2 { lb.duplicate_to_stderr(flexi_logger::Duplicate::All) } else { lb.duplicate_to_stdout(flexi_logger::Duplicate::All) };
+    let (logger, handle) = lb.build().map_err(|e| Fail {
+        clause: "run-error",
+        detail: format!("build: {e}"),
+    })?;
+    let mut accepted: Vec<u8> = Vec::new();
+    let mut seq = 0;
+    let mut w = |n: usize, accepted: &mut Vec<u8>| {
+        for _ in 0..n {
+            let msg = crate::lg::payload(0, seq, 9);
+            seq += 1;
+            accepted.extend(msg.as_bytes());
+            accepted.push(b'\n');
+            crate::lg::log_info(&*logger, &msg);
+        }
+    };
+    let cap_path = env.root.path().join("dup.txt");
+    // phase 1: the stream works
+    let cap = FdCapture::start(fd, cap_path.clone());
+    w(2, &mut accepted);
+    if let Some(c) = cap {
+        c.finish();
+    }
+    // phase 2: the stream is a full device
+    let errs_before = env.errlines().len();
+    let full = FdCapture::start(fd, std::path::PathBuf::from("/dev/full"));
+    w(3, &mut accepted);
+    if let Some(c) = full {
+        c.restore();
+    }
+    let errs_during = env.errlines().len() - errs_before;
+    // phase 3: the stream works again
+    let cap = FdCapture::start(fd, cap_path);
+    let from = accepted.len();
+    w(2, &mut accepted);
+    let dup_after = cap.map(FdCapture::finish).unwrap_or_default();
+    handle.shutdown();
+    drop(logger);
+    env.leave();
+    let scan = family::scan(&env.dir, &cfg.parts, None, cfg.naming(), &[]);
+    let stream = scan.stream(&env.dir).map_err(|e| Fail {
+        clause: "run-error",
+        detail: e,
+    })?;
+    if stream != accepted {
+        return Err(Fail {
+            clause: "unrelated-record-lost",
+            detail: format!("writing the duplicates failed (stream is a full device), the log files must hold every record exactly once:\n   files hold {:?}\n   logged     {:?}", String::from_utf8_lossy(&stream), String::from_utf8_lossy(&accepted)),
+        });
+    }
+    if errs_during == 0 {
+        return Err(Fail {
+            clause: "not-reported",
+            detail: "three duplicates could not be written (ENOSPC) but nothing was written to the error channel".into(),
+        });
+    }
+    // recovery: the duplicates of the records logged after the stream works again are there,
+    // intact and in order (stdout is line-buffered by std and may deliver older lines late)
+    let want = String::from_utf8_lossy(&accepted[from..]).to_string();
+    let got = String::from_utf8_lossy(&dup_after).to_string();
+    let mut pos = 0;
+    for l in want.lines() {
+        match got[pos..].find(&format!("{l}\n")) {
+            Some(p) => pos += p + l.len() + 1,
+            None => {
+                return Err(Fail {
+                    clause: "no-recovery",
+                    detail: format!("after the stream works again the duplicate of {l:?} is missing: the stream received {got:?}"),
+                })
+            }
+        }
+    }
+    Ok(errs_during)
+}
+
+fn run_dup_unit(idx: usize, unit: usize, out: &mut Out) {
+    let (fd, mode, rot) = dup_cases()[idx];
+    let case = json!({"unit": unit, "dup": idx});
+    let cause = format!("duplicate-stream-full/{}/{}/{}", if fd == 2 { "stderr" } else { "stdout" }, super::c08::mode_class(mode), rot.map_or("no-rotation", NamingK::short));
+    let mut keys = Vec::new();
+    for _ in 0..2 {
+        out.evaluations += 1;
+        out.transitions += 7;
+        let v = match run_isolated(Duration::from_secs(30), move || run_dup(fd, mode, rot)) {
+            Ran::Done(Ok(n)) => {
+                out.outcome(format!("duplicate stream full: error lines={}", n.min(3)));
+                None
+            }
+            Ran::Done(Err(f)) => Some(Violation::new(f.clause, cause.clone(), format!("file logging with duplication to fd {fd}, mode {mode:?}, rotation {rot:?}; history W W [fd -> /dev/full] W W W [fd restored] W W\n  {}", f.detail), case.clone())),
+            Ran::Panicked(m) => Some(Violation::new("panic", cause.clone(), m, case.clone())),
+            Ran::Hung => Some(Violation::new("hang", cause.clone(), String::new(), case.clone())),
+        };
+        match v {
+            None => break,
+            Some(v) => keys.push(v),
+        }
+    }
+    out.state(&(unit, "dup"));
+    out.nontrivial(&(unit, "dup"));
+    if keys.len() == 2 {
+        if keys[0].key() == keys[1].key() {
+            out.violation(keys.remove(0));
+        } else {
+            out.violation(Violation::new("nondeterministic", "replay-diverged", keys[0].detail.clone(), case));
+        }
+    } else if keys.len() == 1 {
+        out.violation(Violation::new("nondeterministic", "replay-diverged", keys[0].detail.clone(), case));
+    }
 }
 fn bounds(tier: &str) -> Value {
-    json!({"configurations": grid().len(), "history": format!("{:?}", word()), "bursts": [1, 2, 3], "second_order": tier != "quick"})
+    json!({"configurations": grid().len(), "history": format!("{:?}", word()), "bursts": [1, 2, 3], "second_order": tier != "quick", "failing_duplicate_stream_cases": dup_cases().len()})
 }
 
 #[derive(Debug)]
@@ -461,6 +597,10 @@ fn judge_df(c: &Case, faults: &[FaultSpec], dev_full: Option<String>, unit: usiz
 
 fn run_unit(tier: &str, unit: usize, out: &mut Out) {
     let g = grid();
+    if unit >= g.len() {
+        run_dup_unit(unit - g.len(), unit, out);
+        return;
+    }
     let c = &g[unit];
     // fault-free reference run: records the trace
     let (v, o) = judge(c, &[], unit, None);
@@ -556,6 +696,12 @@ fn run_unit(tier: &str, unit: usize, out: &mut Out) {
 fn replay(case: &Value) -> Vec<Violation> {
     let g = grid();
     let unit = case["unit"].as_u64().unwrap_or(0) as usize;
+    if let Some(idx) = case["dup"].as_u64() {
+        let mut out = Out::default();
+        println!("replay C19: failing duplicate stream, case {:?}", dup_cases().get(idx as usize));
+        run_dup_unit(idx as usize, unit, &mut out);
+        return out.violations;
+    }
     let Some(c) = g.get(unit) else { return vec![] };
     let faults: Vec<FaultSpec> = case["faults"]
         .as_array()
